@@ -11,7 +11,9 @@ pub mod c08;
 pub mod c11;
 pub mod c12;
 pub mod c15;
+pub mod c18;
 pub mod c19;
+pub mod c20;
 pub mod c13;
 pub mod meta;
 pub mod values;
@@ -34,7 +36,9 @@ pub fn run(prop: &str, ctx: &Ctx) -> Option<Report> {
         "C10" => stmt::run_c10(ctx),
         "C11" => c11::run(ctx),
         "C12" => c12::run(ctx),
+        "C18" => c18::run(ctx),
         "C19" => c19::run(ctx),
+        "C20" => c20::run(ctx),
         "C16" => stmt::run_c16(ctx),
         "C17" => stmt::run_c17(ctx),
         _ => return None,
